@@ -261,13 +261,7 @@ pub fn run_tasks<'a>(
         steps += 1;
         schedule.push(t as u32);
         tasks[t].waker.ready.store(false, Ordering::SeqCst);
-        if park_sleep.is_none() {
-            if let Some(since) = park_since[t] {
-                if since.elapsed() > std::time::Duration::from_micros(350) {
-                    return (SchedOutcome::Tainted, schedule);
-                }
-            }
-        }
+        let poll_begin = Instant::now();
         let waker = Waker::from(tasks[t].waker.clone());
         let mut cx = Context::from_waker(&waker);
         let fut = tasks[t].fut.as_mut().unwrap();
@@ -275,6 +269,13 @@ pub fn run_tasks<'a>(
         match r {
             Ok(Poll::Ready(())) => {
                 tasks[t].fut = None;
+                if park_sleep.is_none() {
+                    if let Some(since) = park_since[t] {
+                        if since.elapsed() > std::time::Duration::from_micros(480) {
+                            return (SchedOutcome::Tainted, schedule);
+                        }
+                    }
+                }
                 park_since[t] = None;
             }
             Ok(Poll::Pending) => {
@@ -282,9 +283,21 @@ pub fn run_tasks<'a>(
                 // lock over fairly only to waiters that have waited > 500 us of WALL-CLOCK time
                 // (a clock inside a dependency that cannot be seamed); in "starved" runs that
                 // state is forced by really waiting longer than the threshold.
+                // Barging-mode guarantee: the mutex compares (its check time - start of the slow
+                // acquire) with 500 us. The slow acquire started during the poll in which the task
+                // parked, i.e. not before that poll began, and every later check happens before the
+                // poll that performs it ends. So if (end of this poll - begin of the parking poll)
+                // stays below the threshold, no waiter can have been marked starved.
+                if park_sleep.is_none() {
+                    if let Some(since) = park_since[t] {
+                        if since.elapsed() > std::time::Duration::from_micros(480) {
+                            return (SchedOutcome::Tainted, schedule);
+                        }
+                    }
+                }
                 if !tasks[t].waker.ready.load(Ordering::SeqCst) {
                     if park_since[t].is_none() {
-                        park_since[t] = Some(Instant::now());
+                        park_since[t] = Some(poll_begin);
                     }
                     if let Some(d) = park_sleep {
                         std::thread::sleep(d);
